@@ -595,14 +595,21 @@ def main(ctx):
     # ------------------------------------------------------------ call sequences
     # sequences of sort / chunking calls in one process on the same list and array objects
     # (mc/worlds.py call_sequences): recursion scratch kept at module level, memoised chunk boundaries
-    from mc.worlds import call_sequences
+    from mc.worlds import call_sequences, CheckFailed
 
     def seq_pool():
+        big = np.arange(40).reshape(8, 5)
+        rec_ = np.zeros(7, dtype=[("p", "i2"), ("q", "i8"), ("t", "S3")])
+        rec_["q"] = np.arange(7) * 3 + 1
         return dict(a=np.array([3, 1, 2, 1, 0, 2]), k=np.array([2, 0, 1, 1, 2, 0]), v=np.array([10, 11, 12, 13, 14, 15]),
-                    l=[5, 3, 4, 3], r=np.arange(7))
+                    l=[5, 3, 4, 3], r=np.arange(7),
+                    # the same kind of 1-d data in other memory layouts: every second element, a column of a 2-d
+                    # array, a reversed view, a field of a record array
+                    rs=np.arange(14)[::2], rc=big[:, 2], rn=np.arange(7)[::-1], rf=rec_["q"])
 
     SEQ_CALLS = [("quicksort", "a"), ("quicksort", "l"), ("quicksort_keyvalue", "k", "v"), ("isplit", 7, 3), ("isplit", 10, 4),
-                 ("isplit", 3, 5), ("splitarray", 2, "r"), ("splitarray", 3, "r"), ("splitarray", 3, "a")]
+                 ("isplit", 3, 5), ("splitarray", 2, "r"), ("splitarray", 3, "r"), ("splitarray", 3, "a"),
+                 ("splitarray", 2, "rs"), ("splitarray", 3, "rc"), ("splitarray", 2, "rn"), ("splitarray", 3, "rf")]
 
     def seq_run(c, pool):
         # the sorts work in place: they get private copies of the pooled data, the results are the sorted copies
@@ -616,6 +623,14 @@ def main(ctx):
             return [kk, vv]
         if c[0] == "isplit":
             return [np.asarray(v) for v in algorithm.isplit(c[1], c[2])]
-        return [np.asarray(x) for x in nu.splitarray(c[1], pool[c[2]])]
+        parts = [np.asarray(x) for x in nu.splitarray(c[1], pool[c[2]])]
+        # definition: consecutive chunks of nper elements (the last one shorter) whose concatenation is the input
+        src = np.asarray(pool[c[2]])
+        exp = [src[i:i + c[1]] for i in range(0, src.size, c[1])]
+        if len(parts) != len(exp) or any(not np.array_equal(x, y) for x, y in zip(parts, exp)):
+            raise CheckFailed("splitarray(%d, %r) = %r, expected %r" % (c[1], src.tolist(), [x.tolist() for x in parts],
+                                                                           [y.tolist() for y in exp]))
+        return parts
 
-    call_sequences(ctx, "call-sequences", seq_pool, SEQ_CALLS, seq_run, lambda: [algorithm, nu], depth=3, nodedup_depth=3)
+    call_sequences(ctx, "call-sequences", seq_pool, SEQ_CALLS, seq_run, lambda: [algorithm, nu], depth=3, nodedup_depth=3,
+                   result_edits=True)
